@@ -119,15 +119,11 @@ impl PolynomialTraits for IntermediatePolynomial {
     where
         S: AsRef<str>,
     {
-        let derived = partial_derivative(&self.terms, var).terms;
-        let variables = derived
-            .iter()
-            .flat_map(|term| term.variables.iter())
-            .map(|(var_name, _)| var_name.clone())
-            .collect();
+        // partial_derivative already returns the sorted, de-duplicated variable list
+        let derived = partial_derivative(&self.terms, var);
         Self {
-            terms: derived,
-            variables,
+            terms: derived.terms,
+            variables: derived.variables,
         }
     }
 
